@@ -718,10 +718,15 @@ func (db *Database) SearchWithNLP(query string, options SearchOptions) []SearchR
 		// Fall back to regular search if NLP is disabled
 		return db.SearchWithFuzzy(query, options)
 	}
+	if options.Limit <= 0 {
+		options.Limit = constants.DefaultSearchLimit
+	}
+	// TF-IDF candidates: twice the limit for better selection (without overflowing)
+	candidates := utils.BufferCap(len(db.Commands), options.Limit, 2)
 
 	// Use shared TF-IDF searcher if available
 	if db.tfidf != nil && db.cmdIndex != nil {
-		tfidfResults := db.tfidf.Search(query, options.Limit*2) // Get more results for better selection
+		tfidfResults := db.tfidf.Search(query, candidates)
 
 		// Convert TF-IDF results to database SearchResult format
 		var results []SearchResult
@@ -753,7 +758,7 @@ func (db *Database) SearchWithNLP(query string, options SearchOptions) []SearchR
 	}
 
 	tfidfSearcher := nlp.NewTFIDFSearcher(nlpCommands)
-	tfidfResults := tfidfSearcher.Search(query, options.Limit*2)
+	tfidfResults := tfidfSearcher.Search(query, candidates)
 
 	// Convert TF-IDF results to database SearchResult format
 	var results []SearchResult
